@@ -3277,6 +3277,31 @@ int  bufr_dataset_compressible( BUFR_Dataset *dts )
             }
          }
       }
+/*
+ * the increment width of a compressed column has 6 bits and its all ones pattern is reserved:
+ * an associated field of 63 or 64 bits whose values span 2^63-1 or more has no compressed form
+ */
+   for (j = 0; j < count ; j++ )
+      {
+      coderef = bufr_datasubset_get_descriptor( subsetref, j );
+      if ((coderef->encoding.af_nbits >= 63) && coderef->value && coderef->value->af)
+         {
+         uint64_t umin, umax, uval;
+
+         umin = umax = coderef->value->af->bits;
+         for (i = 1; i < nb_subsets ; i++)
+            {
+            code = bufr_datasubset_get_descriptor( bufr_get_datasubset( dts, i ), j );
+            if (code->value && code->value->af)
+               {
+               uval = code->value->af->bits;
+               if (uval < umin) umin = uval;
+               if (uval > umax) umax = uval;
+               }
+            }
+         if ((umax - umin) >= 0x7fffffffffffffffULL) return 0;
+         }
+      }
    return 1;
    }
 
